@@ -39,7 +39,7 @@ def drive(chk, args, tag, timeout=600):
     return tr, runs, aborts, fault
 
 
-def judge(chk, tr, runs, on, tag, timeout=900, max_failures=6):
+def judge(chk, tr, runs, on, tag, timeout=900, max_failures=12):
     """TLC judgement of one trace file. Returns list of failures: dicts(kind, run, info)."""
     failures = []
     if not runs:
